@@ -32,7 +32,7 @@ STUBS = []
 PROBES = ['eviction', 'absent_key_lookup', 'absent_then_evict', 'idx_path', 'raw_path', 'rewrite',
           'cache_size_1', 'minus_strand_tx', 'sec_tx', 'demo_multi_isoform', 'invalid_protein_as_noncoding',
           'unversioned_lookup', 'non_ascii_gtf', 'corpus_real_reference', 'ensembl_dialect', 'gencode_extras',
-          'recheck_protein_coding']
+          'recheck_protein_coding', 'two_chromosomes']
 RULE = ('case = generated annotation (6-14 genes, both strands, Sec, NF tags) or the multi-isoform demo GTF; '
         'history = Hypothesis rule sequence (<=40 steps): lookups of present/absent keys in both pointer '
         'dicts, contains/len/iter, coordinate and sequence API calls, unversioned gene lookup, write->reparse, '
@@ -693,7 +693,12 @@ def gencode_extras(rng, gtf_text):
                 if a.startswith('transcript_id '):
                     tid = a.split(' ', 1)[1].strip('"')
             if tid:
-                new = tid + 'b' if not tid[-1].isdigit() else tid[:5] + '9' + tid[6:]
+                if not tid[-1].isdigit():
+                    new = tid + 'b'
+                elif tid[5] in '01234':
+                    new = tid[:5] + str(int(tid[5]) + 5) + tid[6:]      # FAKET0.. -> FAKET5.., FAKET1.. -> FAKET6..
+                else:
+                    new = tid
                 if new != tid:
                     out.extend(l.replace(tid, new).replace(tid.replace('FAKET', 'FAKEP'), new.replace('FAKET', 'FAKEP'))
                                .replace(' is_protein_coding true;', ' is_protein_coding false;') for l in block + extra)
@@ -731,7 +736,12 @@ def case_texts(seed, idx):
         texts = {'gtf': (e['ref'] / 'annotation.gtf').read_text(), 'genome_fa': (e['ref'] / 'genome.fasta').read_text(),
                  'proteome_fa': (e['ref'] / e['proteome']).read_text()}
     else:
-        texts, _, _ = workload.gen_reference(rng, rng.randint(6, 14))
+        if rng.random() < 0.2:
+            # two chromosomes, every gene with a paralog copy on the second one, some genes with two isoforms
+            texts, _, _, _ = workload.gen_paralog_reference(rng, rng.randint(3, 7))
+            texts = dict(texts, two_chromosomes=True)
+        else:
+            texts, _, _ = workload.gen_reference(rng, rng.randint(6, 14))
         # make the proteome interesting for check_protein_coding: drop one entry, put a '*' into another
         recs = texts['proteome_fa'].split('>')[1:]
         if len(recs) >= 3:
@@ -809,6 +819,8 @@ def run_case(seed, task, tier):
             probes['ensembl_dialect'] = probes.get('ensembl_dialect', 0) + 1
         if texts.get('gencode_extras'):
             probes['gencode_extras'] = probes.get('gencode_extras', 0) + 1
+        if texts.get('two_chromosomes'):
+            probes['two_chromosomes'] = probes.get('two_chromosomes', 0) + 1
     if stats_box:
         out['sample'] = {'case': idx, 'demo': demo, 'n_histories': len(stats_box),
                          'last_history': trace_box[0][:40] if trace_box[0] else None}
